@@ -108,7 +108,7 @@ Definition errors_push {R} (e : syntax_error) : QM R unit :=
 Definition vec_new {A} : list A := [].
 Definition get_builder {R} : QM R builder := fun st => (PNorm (pb_builder st), st).
 
-(** * rowan::GreenNodeBuilder (contract: ParserPrims.b_*) *)
+(** * rowan::GreenNodeBuilder (contract: the ParserPrims.b_ functions) *)
 Definition builder_new : builder := builder_init.
 Definition with_builder (st : gps) (b : builder) : gps :=
   mk_gps (pb_ts st) (pb_current st) (pb_range st) b (pb_errors st) (pb_after st).
